@@ -16,8 +16,8 @@ mode="${1:-}"; arg="${2:-quick}"
 [ -n "$mode" ] || { echo "usage: $0 <Cxx> <quick|thorough> | replay <file>" >&2; exit 2; }
 
 race=""
-case "$mode" in C09) race="-race";; esac
-if [ "$mode" = replay ] && grep -q '"property": "C09"' "$arg" 2>/dev/null; then race="-race"; fi
+case "$mode" in C08|C09) race="-race";; esac
+if [ "$mode" = replay ] && grep -qE '"property": "C0[89]"' "$arg" 2>/dev/null; then race="-race"; fi
 [ "${VERIF_RACE:-}" = 1 ] && race="-race"
 
 build() {
